@@ -579,17 +579,26 @@ func (x *Exec) applyContract(s *State, in *ssa.Call, fc *FuncContract, callee *s
 		}
 	}
 	env.oldHeap = pre
+	// The ghost stream machinery (history variables, stream definitions, operand disjointness) is
+	// only switched on for functions whose contract asks for it (`theory ...`): the safety sweep of
+	// the other functions does not need it and stays small.
+	streams := x.fnc != nil && x.fnc.Theory
 	// ghost history variables: updated by the call rule itself
 	for _, cl := range fc.clauses("ghost") {
-		x.applyGhost(s, env, cl, pre, recv)
+		if streams {
+			x.applyGhost(s, env, cl, pre, recv)
+		}
 	}
-	if fc.DisjointOperands && recv != nil {
+	if streams && fc.DisjointOperands && recv != nil {
 		x.preserveOtherGhosts(s, pre, recv.v.T)
 		if res.K == vScalar && res.T.Sort == SIface && strings.HasSuffix(fc.Key, ".Select") {
 			s.navOwner[res.T.S] = recv.v.T.S
 		}
 	}
 	for _, cl := range append(fc.clauses("ensures"), fc.clauses("ensures-assumed")...) {
+		if cl.Kind == "ensures-assumed" && !streams && cl.Label != "deterministic" && cl.Label != "client-loader" {
+			continue
+		}
 		t, err := env.evalBool(cl.Expr)
 		if err != nil {
 			x.unsupported("ensures of %s: %v", fc.Key, err)
